@@ -991,7 +991,9 @@ def run(chk, args):
         exprs = [coq_ner_expr(c, o) if i is None else coq_route_expr(c, o, i) for c, o, i in pending]
         # time limits in proportion: a shard of the quick tier takes 5-20 s; one that times out or dies is a broken
         # obligation (the failing inputs found by the oracle are reported regardless)
-        lim = 180 if quick else 1500
+        # ... scaled by the load of the machine (the limit is wall-clock time)
+        load = max(1.0, os.getloadavg()[0] / float(os.cpu_count() or 16))
+        lim = int(min(2700, (180 if quick else 1500) * load))
         evals["cases"] = ex.submit(chk.coq_eval, HEADER, exprs, max(40, min(400, -(-len(exprs) // 10))), lim)
         if multi:
             evals["multi"] = ex.submit(
